@@ -79,6 +79,15 @@ def check_escape(rep: Report, prog: Program) -> None:
                 rep.ok("R11.1")
             else:
                 rep.fail("R11.1", f"{name}|{ex.kind}|origin={origin}", f"{q}: execute() raises {ex.kind} originating at {origin} instead of reporting it in the outcome", where=prog.func(q).where(), function=q, path=short_witness(interp, ex))
+    # ... and the converse for the one kind that *must* leave: a RetryExhaustedError raised by the operation (a nested
+    # policy's call() giving up) is not a failure of this run to classify and retry
+    for name, (interp, exits, client) in res.items():
+        q = RUNNERS[name]
+        rep.instance("R11.1", f"{name}|RetryExhaustedError from the operation propagates")
+        if any(ex.how == "raise" and ex.kind == "RetryExhaustedError" and (ex.cstate or "") in ("operation", "await:operation") for ex in exits):
+            rep.ok("R11.1")
+        else:
+            rep.fail("R11.1", f"{name}|nested-exhaustion-folded", f"{q}: a RetryExhaustedError raised by the operation itself never leaves execute(): it is caught and handled as an attempt failure (classified, retried, folded into the outcome)", where=prog.func(q).where(), function=q)
     if n < 8:
         raise AnalysisError(f"R11.1: only {n} exceptional exits explored")
     # no-retry execute (Policy / AsyncPolicy): only the operation raises
